@@ -173,7 +173,7 @@ pub fn render_data(d: &DataDecl, ch: &mut Choices) -> String {
     }
 }
 
-const COMMENTS: [&str; 6] = ["; comment", ";mov ax, 5", "; start: hlt ; nested", ";", "; \"quoted\" text", ";;; jmp nowhere"];
+const COMMENTS: [&str; 11] = ["; comment", ";mov ax, 5", "; start: hlt ; nested", ";", "; \"quoted\" text", ";;; jmp nowhere", "; 5\" long", "; say \"hi", ";\"", "; it's", "; db \"a;b\" ; \"c"];
 
 fn stmt_sep(out: &mut String, lay: &Layout, ch: &mut Choices, is_string_literal_line: bool) {
     let c = ch.next();
